@@ -112,6 +112,11 @@ def run_kani_group(ctx, group):
     log("[%s] building harness group %s against a fresh copy of %s" % (ctx.prop, group, tree.REPO))
     hs, bt = kanirun.build_group(hdir, target, os.path.join(logdir, "_build.log"), kargs)
     sel = select(hs, ctx.prop, ctx.tier, ctx.only)
+    if not sel and not ctx.only and ctx.tier == "quick" and select(hs, ctx.prop, "thorough", None):
+        # the group only has thorough-tier harnesses for this property: nothing to run in the quick tier
+        log("[%s] %s: thorough-tier harnesses only; skipped in the quick tier" % (ctx.prop, group))
+        ctx.notes.append("%s: thorough-tier harnesses only" % group)
+        return hdir
     if not sel:
         if ctx.only:
             log("[%s] %s: no harness matches --only %s (group skipped)" % (ctx.prop, group, ctx.only))
@@ -414,8 +419,9 @@ def write_evidence(ctx, wall):
         "violations": len(ctx.violations),
     }
     # evidence/ is only ever written by runs against /repo itself; runs against another tree (VERIF_REPO, used to
-    # try seeded changes and the pre-fix tree) write to evidence_other/ (not committed)
-    d = os.path.join(VERIF, "evidence" if os.path.realpath(tree.REPO) == "/repo" else "evidence_other")
+    # try seeded changes and the pre-fix tree) and partial runs (--only) write to evidence_other/ (not committed)
+    full_run = os.path.realpath(tree.REPO) == "/repo" and not ctx.only
+    d = os.path.join(VERIF, "evidence" if full_run else "evidence_other")
     os.makedirs(d, exist_ok=True)
     with open(os.path.join(d, ctx.prop + ".json"), "w") as f:
         json.dump(ev, f, indent=1)
